@@ -1,0 +1,484 @@
+//! Verification hooks for the connection task (`--cfg litep2p_verif` only).
+//!
+//! [`ConnectionHarness`] runs the real `TcpConnection::start()` of one side of a real, freshly
+//! negotiated loopback connection (TCP + Noise + yamux) against
+//! * a real [`ProtocolSet`] with `n` protocols whose inboxes and connection handles are owned by the
+//!   driver (release a handle = what `TransportService` does at keep-alive expiry, drop a protocol,
+//!   keep an inbox full, request an outbound substream, force-close), and
+//! * a scripted remote that owns the raw yamux halves of the other side (open a substream for a
+//!   protocol and negotiate it, or only send the multistream header and stall; answer / refuse /
+//!   ignore substreams the local side opens; close the connection).
+//! The task is only polled when the driver says so (for a time span or a number of polls), so
+//! "both the released connection and an inbound substream are ready at the first poll" can be
+//! arranged.  Everything every inbox and the manager channel received is reported as plain data.
+
+use crate::{
+    codec::ProtocolCodec,
+    multistream_select::{dialer_select_proto, listener_select_proto, Version},
+    protocol::{Direction, InnerTransportEvent, ProtocolSet, SubstreamKeepAlive},
+    transport::{
+        manager::{ProtocolContext, TransportManagerEvent},
+        tcp::VerifTcpConnection,
+    },
+    types::{protocol::ProtocolName, SubstreamId},
+    PeerId,
+};
+
+use futures::{future::BoxFuture, AsyncWriteExt, StreamExt};
+use tokio::sync::mpsc::{channel, Receiver, Sender};
+
+use std::{
+    collections::HashMap,
+    future::Future,
+    pin::Pin,
+    sync::{
+        atomic::{AtomicBool, AtomicUsize, Ordering},
+        Arc, Mutex,
+    },
+    task::{Context, Poll},
+    time::Duration,
+};
+
+/// What a protocol inbox received.
+#[derive(Debug, Clone, PartialEq, Eq)]
+pub enum InboxEvent {
+    Established { cid: usize },
+    Closed { cid: usize },
+    OpenedInbound,
+    OpenedOutbound { id: usize },
+    OpenFailure { id: usize },
+    /// Filler put there by [`ConnectionHarness::fill_inbox`].
+    Filler,
+}
+
+/// Plain-data configuration.
+#[derive(Debug, Clone)]
+pub struct ConnSetup {
+    /// Number of protocols (`/verif/conn/<i>`), all keep-alive.
+    pub protocols: usize,
+    /// Capacity of every protocol inbox.
+    pub inbox_capacity: usize,
+    /// Substream open timeout of the local connection task.
+    pub substream_open_timeout: Duration,
+}
+
+/// How the scripted remote treats substreams opened by the local side.
+#[derive(Debug, Clone, Copy, PartialEq, Eq)]
+pub enum RemoteMode {
+    /// Negotiate the protocols it supports, refuse the others.
+    Serve,
+    /// Never answer (the local open times out).
+    Stall,
+}
+
+/// Everything observed so far.
+#[derive(Debug, Clone)]
+pub struct Report {
+    /// Per protocol: events received, in order. Events still sitting in a blocked (full) inbox are
+    /// not included.
+    pub inboxes: Vec<Vec<InboxEvent>>,
+    /// Protocols that were dropped.
+    pub dropped: Vec<bool>,
+    /// Connection ids of the `ConnectionClosed` events the manager channel received.
+    pub manager: Vec<usize>,
+    /// Result of `start()` once it returned.
+    pub finished: Option<Result<(), String>>,
+    /// Number of times the task was polled.
+    pub polls: usize,
+}
+
+struct RemoteShared {
+    supported: Mutex<Vec<ProtocolName>>,
+    stall: AtomicBool,
+    /// inbound streams the remote accepted (kept alive)
+    accepted: AtomicUsize,
+}
+
+/// See the module documentation.
+pub struct ConnectionHarness {
+    names: Vec<ProtocolName>,
+    peer: PeerId,
+    cid: usize,
+    task: Option<BoxFuture<'static, crate::Result<()>>>,
+    finished: Option<Result<(), String>>,
+    polls: usize,
+    txs: Vec<Sender<InnerTransportEvent>>,
+    inboxes: Vec<Option<Receiver<InnerTransportEvent>>>,
+    blocked: Vec<bool>,
+    /// The `ConnectionEstablished` event of each protocol (it owns the Active connection handle).
+    handles: Vec<Option<InnerTransportEvent>>,
+    seen: Vec<Vec<InboxEvent>>,
+    keep_substreams: bool,
+    held: Vec<InnerTransportEvent>,
+    mgr_rx: Receiver<TransportManagerEvent>,
+    manager: Vec<usize>,
+    next_substream: usize,
+    remote_control: Option<crate::yamux::Control>,
+    remote_driver: Option<tokio::task::JoinHandle<()>>,
+    remote_jobs: Vec<tokio::task::JoinHandle<()>>,
+    remote: Arc<RemoteShared>,
+}
+
+impl Drop for ConnectionHarness {
+    fn drop(&mut self) {
+        if let Some(h) = self.remote_driver.take() {
+            h.abort();
+        }
+        for j in self.remote_jobs.drain(..) {
+            j.abort();
+        }
+    }
+}
+
+struct CountPolls<'a> {
+    fut: &'a mut BoxFuture<'static, crate::Result<()>>,
+    polls: &'a mut usize,
+    left: Option<usize>,
+}
+
+impl Future for CountPolls<'_> {
+    type Output = Option<crate::Result<()>>;
+    fn poll(mut self: Pin<&mut Self>, cx: &mut Context<'_>) -> Poll<Self::Output> {
+        if self.left == Some(0) {
+            return Poll::Ready(None);
+        }
+        *self.polls += 1;
+        if let Some(left) = self.left.as_mut() {
+            *left -= 1;
+        }
+        match self.fut.as_mut().poll(cx) {
+            Poll::Ready(result) => Poll::Ready(Some(result)),
+            Poll::Pending if self.left == Some(0) => Poll::Ready(None),
+            Poll::Pending => Poll::Pending,
+        }
+    }
+}
+
+impl ConnectionHarness {
+    /// Negotiate a loopback connection, announce it to the protocols (the harness keeps their
+    /// handles) and prepare - but do not poll - the local connection task. The scripted remote
+    /// initially supports every protocol.
+    pub async fn new(setup: ConnSetup) -> Result<Self, String> {
+        let (remote, local) =
+            VerifTcpConnection::verif_negotiated_pair(setup.substream_open_timeout).await?;
+        let names: Vec<ProtocolName> =
+            (0..setup.protocols).map(|i| ProtocolName::from(format!("/verif/conn/{i}"))).collect();
+        let (mgr_tx, mgr_rx) = channel(64);
+        let mut protocols = HashMap::new();
+        let (mut txs, mut inboxes) = (Vec::new(), Vec::new());
+        for name in &names {
+            let (tx, rx) = channel(setup.inbox_capacity.max(1));
+            protocols.insert(
+                name.clone(),
+                ProtocolContext {
+                    tx: tx.clone(),
+                    codec: ProtocolCodec::UnsignedVarint(None),
+                    fallback_names: Vec::new(),
+                    keep_alive: SubstreamKeepAlive::Yes,
+                },
+            );
+            txs.push(tx);
+            inboxes.push(Some(rx));
+        }
+        let peer = local.peer();
+        let endpoint = local.endpoint();
+        let cid = endpoint.connection_id().verif_as_usize();
+        let mut set = ProtocolSet::new(endpoint.connection_id(), mgr_tx, Default::default(), protocols);
+        set.report_connection_established(peer, endpoint).await.map_err(|e| format!("{e:?}"))?;
+        let mut handles = Vec::new();
+        let mut seen = Vec::new();
+        for rx in inboxes.iter_mut() {
+            match rx.as_mut().expect("inbox").try_recv() {
+                Ok(event @ InnerTransportEvent::ConnectionEstablished { .. }) => {
+                    handles.push(Some(event));
+                    seen.push(vec![InboxEvent::Established { cid }]);
+                }
+                other => return Err(format!("established expected, got {other:?}")),
+            }
+        }
+        let task: BoxFuture<'static, crate::Result<()>> =
+            Box::pin(VerifTcpConnection::verif_new(local, set).start());
+
+        // scripted remote
+        let (mut inbound, control) = remote.verif_into_parts();
+        let shared = Arc::new(RemoteShared {
+            supported: Mutex::new(names.clone()),
+            stall: AtomicBool::new(false),
+            accepted: AtomicUsize::new(0),
+        });
+        let sh = shared.clone();
+        let remote_driver = tokio::spawn(async move {
+            let mut kept = Vec::new();
+            let mut jobs = futures::stream::FuturesUnordered::new();
+            loop {
+                tokio::select! {
+                    stream = inbound.next() => match stream {
+                        Some(Ok(stream)) => {
+                            if sh.stall.load(Ordering::SeqCst) {
+                                kept.push(stream);
+                                continue;
+                            }
+                            let supported: Vec<String> =
+                                sh.supported.lock().unwrap().iter().map(|p| p.to_string()).collect();
+                            let sh2 = sh.clone();
+                            jobs.push(async move {
+                                let r = tokio::time::timeout(
+                                    Duration::from_secs(5),
+                                    listener_select_proto(stream, supported),
+                                )
+                                .await;
+                                if let Ok(Ok((_, io))) = r {
+                                    sh2.accepted.fetch_add(1, Ordering::SeqCst);
+                                    Some(io)
+                                } else {
+                                    None
+                                }
+                            });
+                        }
+                        _ => break,
+                    },
+                    Some(io) = jobs.next(), if !jobs.is_empty() => {
+                        if let Some(io) = io {
+                            // keep the negotiated stream open
+                            tokio::spawn(async move {
+                                let _io = io;
+                                futures::future::pending::<()>().await;
+                            });
+                        }
+                    }
+                }
+            }
+            drop(kept);
+        });
+
+        let n = names.len();
+        Ok(Self {
+            names,
+            peer,
+            cid,
+            task: Some(task),
+            finished: None,
+            polls: 0,
+            txs,
+            inboxes,
+            blocked: vec![false; n],
+            handles,
+            seen,
+            keep_substreams: false,
+            held: Vec::new(),
+            mgr_rx,
+            manager: Vec::new(),
+            next_substream: 1000,
+            remote_control: Some(control),
+            remote_driver: Some(remote_driver),
+            remote_jobs: Vec::new(),
+            remote: shared,
+        })
+    }
+
+    /// Connection id of the local side.
+    pub fn connection_id(&self) -> usize {
+        self.cid
+    }
+
+    /// Keep substreams delivered to the protocols (and their permits) instead of dropping them.
+    pub fn keep_substreams(&mut self, keep: bool) {
+        self.keep_substreams = keep;
+        if !keep {
+            self.held.clear();
+        }
+    }
+
+    /// Protocol `q` releases the connection (its Active handle is dropped): what
+    /// `TransportService` does when the keep-alive timeout of the connection expires.
+    pub fn release(&mut self, q: usize) {
+        self.handles[q] = None;
+    }
+
+    /// Protocol `q` shuts down: inbox receiver and handle are dropped.
+    pub fn drop_protocol(&mut self, q: usize) {
+        self.pump();
+        self.handles[q] = None;
+        self.inboxes[q] = None;
+    }
+
+    /// Fill the inbox of `q` with filler events and stop reading it; returns the number added.
+    pub fn fill_inbox(&mut self, q: usize) -> usize {
+        self.pump();
+        self.blocked[q] = true;
+        let mut n = 0;
+        while self.txs[q]
+            .try_send(InnerTransportEvent::DialFailure { peer: self.peer, addresses: Vec::new() })
+            .is_ok()
+        {
+            n += 1;
+        }
+        n
+    }
+
+    /// Protocol `q` reads its inbox again.
+    pub fn unblock(&mut self, q: usize) {
+        self.blocked[q] = false;
+        self.pump();
+    }
+
+    /// Protocol `q` requests an outbound substream through its connection handle (permit + command,
+    /// as `TransportService::open_substream` does). Returns the substream id.
+    pub fn open(&mut self, q: usize) -> Result<usize, String> {
+        let name = self.names[q].clone();
+        let id = self.next_substream;
+        self.next_substream += 1;
+        match self.handles[q].as_mut() {
+            Some(InnerTransportEvent::ConnectionEstablished { sender, .. }) => {
+                let permit = sender.try_get_permit().ok_or("no permit")?;
+                sender
+                    .open_substream(name, Vec::new(), SubstreamId::from(id), permit, SubstreamKeepAlive::Yes)
+                    .map(|_| id)
+                    .map_err(|e| format!("{e:?}"))
+            }
+            _ => Err("released".into()),
+        }
+    }
+
+    /// Protocol `q` force-closes the connection.
+    pub fn force_close(&mut self, q: usize) -> Result<(), String> {
+        match self.handles[q].as_mut() {
+            Some(InnerTransportEvent::ConnectionEstablished { sender, .. }) =>
+                sender.force_close().map_err(|e| format!("{e:?}")),
+            _ => Err("released".into()),
+        }
+    }
+
+    /// Which protocols the remote speaks and whether it ignores inbound substreams altogether.
+    pub fn remote_mode(&mut self, supported: &[usize], mode: RemoteMode) {
+        *self.remote.supported.lock().unwrap() =
+            supported.iter().map(|q| self.names[*q].clone()).collect();
+        self.remote.stall.store(mode == RemoteMode::Stall, Ordering::SeqCst);
+    }
+
+    /// The remote opens a substream. `protocol`: index of a local protocol, or `None` for a
+    /// protocol the local side does not know. With `stall` only the multistream header is sent.
+    /// Returns once the first bytes were written and flushed towards the local socket.
+    pub async fn remote_open(&mut self, protocol: Option<usize>, stall: bool) -> Result<(), String> {
+        let control = self.remote_control.as_mut().ok_or("remote closed")?;
+        let mut stream = control.open_stream().await.map_err(|e| format!("{e:?}"))?;
+        let name = protocol
+            .map(|q| self.names[q].to_string())
+            .unwrap_or_else(|| "/verif/conn/unknown".to_string());
+        if stall {
+            stream.write_all(b"\x13/multistream/1.0.0\n").await.map_err(|e| e.to_string())?;
+            stream.flush().await.map_err(|e| e.to_string())?;
+            self.remote_jobs.push(tokio::spawn(async move {
+                let _stream = stream;
+                futures::future::pending::<()>().await;
+            }));
+            return Ok(());
+        }
+        let (tx, rx) = tokio::sync::oneshot::channel::<()>();
+        self.remote_jobs.push(tokio::spawn(async move {
+            // the dialer writes header + proposal at once; signal after a moment
+            let negotiate = dialer_select_proto(stream, vec![name], Version::V1);
+            tokio::pin!(negotiate);
+            let mut tx = Some(tx);
+            let first = tokio::time::timeout(Duration::from_millis(5), &mut negotiate).await;
+            if let Some(tx) = tx.take() {
+                let _ = tx.send(());
+            }
+            let io = match first {
+                Ok(r) => r.ok().map(|(_, io)| io),
+                Err(_) => tokio::time::timeout(Duration::from_secs(5), negotiate)
+                    .await
+                    .ok()
+                    .and_then(|r| r.ok())
+                    .map(|(_, io)| io),
+            };
+            let _io = io;
+            futures::future::pending::<()>().await;
+        }));
+        let _ = rx.await;
+        Ok(())
+    }
+
+    /// The remote drops the connection (socket closed).
+    pub fn remote_close(&mut self) {
+        self.remote_control = None;
+        if let Some(h) = self.remote_driver.take() {
+            h.abort();
+        }
+        for j in self.remote_jobs.drain(..) {
+            j.abort();
+        }
+    }
+
+    /// Number of substreams of the local side the remote negotiated.
+    pub fn remote_accepted(&self) -> usize {
+        self.remote.accepted.load(Ordering::SeqCst)
+    }
+
+    /// Drain inboxes (except blocked ones) and the manager channel into the log.
+    pub fn pump(&mut self) {
+        for q in 0..self.inboxes.len() {
+            if self.blocked[q] {
+                continue;
+            }
+            let Some(rx) = self.inboxes[q].as_mut() else { continue };
+            while let Ok(event) = rx.try_recv() {
+                let ev = match &event {
+                    InnerTransportEvent::ConnectionEstablished { connection, .. } =>
+                        InboxEvent::Established { cid: connection.verif_as_usize() },
+                    InnerTransportEvent::ConnectionClosed { connection, .. } =>
+                        InboxEvent::Closed { cid: connection.verif_as_usize() },
+                    InnerTransportEvent::SubstreamOpened { direction: Direction::Inbound, .. } =>
+                        InboxEvent::OpenedInbound,
+                    InnerTransportEvent::SubstreamOpened { direction: Direction::Outbound(id), .. } =>
+                        InboxEvent::OpenedOutbound { id: id.verif_as_usize() },
+                    InnerTransportEvent::SubstreamOpenFailure { substream, .. } =>
+                        InboxEvent::OpenFailure { id: substream.verif_as_usize() },
+                    InnerTransportEvent::DialFailure { .. } => InboxEvent::Filler,
+                };
+                self.seen[q].push(ev);
+                if self.keep_substreams && matches!(event, InnerTransportEvent::SubstreamOpened { .. }) {
+                    self.held.push(event);
+                }
+            }
+        }
+        while let Ok(TransportManagerEvent::ConnectionClosed { connection, .. }) = self.mgr_rx.try_recv() {
+            self.manager.push(connection.verif_as_usize());
+        }
+    }
+
+    /// Poll the real connection task: for at most `max` time and (if given) at most `polls` polls.
+    /// Returns `true` once `start()` has returned.
+    pub async fn run(&mut self, max: Duration, polls: Option<usize>) -> bool {
+        if let Some(task) = self.task.as_mut() {
+            let counted = CountPolls { fut: task, polls: &mut self.polls, left: polls };
+            match tokio::time::timeout(max, counted).await {
+                Ok(Some(result)) => {
+                    self.finished = Some(result.map_err(|e| format!("{e:?}")));
+                    self.task = None;
+                }
+                Ok(None) | Err(_) => {}
+            }
+        }
+        self.pump();
+        self.finished.is_some()
+    }
+
+    /// The connection task is dropped without having returned (its executor went away).
+    pub fn abandon(&mut self) {
+        self.task = None;
+        self.pump();
+    }
+
+    /// Everything observed so far.
+    pub fn report(&mut self) -> Report {
+        self.pump();
+        Report {
+            inboxes: self.seen.clone(),
+            dropped: self.inboxes.iter().map(|rx| rx.is_none()).collect(),
+            manager: self.manager.clone(),
+            finished: self.finished.clone(),
+            polls: self.polls,
+        }
+    }
+}
